@@ -36,17 +36,38 @@ const (
 
 var c15Names = []string{"r", "s"}
 
+// c15P is the name of the route's free input (path parameter), c15V the name its body assigns: route r reads q and assigns
+// a, route s reads a and assigns q. A compiler or optimizer fact about one route's variable that survives into the
+// compilation of the other route (shared compiler instance, fact tables not reset) therefore changes what the other
+// route computes from its input.
+func c15P(name string) string {
+	if name == "s" {
+		return "a"
+	}
+	return "q"
+}
+
+func c15V(name string) string {
+	if name == "s" {
+		return "q"
+	}
+	return "a"
+}
+
 // three distinguishable definitions per name; one with a branch and constant
 // arithmetic so that the optimisation tiers have something to do.
 func c15Source(name string, ver int) string {
+	P, V := c15P(name), c15V(name)
+	var t string
 	switch ver % 3 {
 	case 0:
-		return fmt.Sprintf("@ GET /%s/:q {\n  $ a = %d\n  if q > 1 {\n    $ a = a + 10\n  }\n  > {n: \"%s\", v: %d, a: a, q: q}\n}\n", name, 100+ver, name, ver)
+		t = fmt.Sprintf("@ GET /%s/:P {\n  $ V = %d\n  if P > 1 {\n    $ V = V + 10\n  }\n  > {n: \"%s\", v: %d, a: V, q: P}\n}\n", name, 100+ver, name, ver)
 	case 1:
-		return fmt.Sprintf("@ GET /%s/:q {\n  $ a = 2 * 3 + %d\n  $ b = a * 1 + 0\n  > {n: \"%s\", v: %d, a: b + q, q: q}\n}\n", name, ver, name, ver)
+		t = fmt.Sprintf("@ GET /%s/:P {\n  $ V = 2 * 3 + %d\n  $ b = V * 1 + 0\n  > {n: \"%s\", v: %d, a: b + P, q: P}\n}\n", name, ver, name, ver)
 	default:
-		return fmt.Sprintf("@ GET /%s/:q {\n  $ i = 0\n  $ a = %d\n  while i < q {\n    $ a = a + i\n    $ i = i + 1\n  }\n  > {n: \"%s\", v: %d, a: a, q: q}\n}\n", name, ver, name, ver)
+		t = fmt.Sprintf("@ GET /%s/:P {\n  $ i = 0\n  $ V = %d\n  while i < P {\n    $ V = V + i\n    $ i = i + 1\n  }\n  > {n: \"%s\", v: %d, a: V, q: P}\n}\n", name, ver, name, ver)
 	}
+	return strings.NewReplacer("P", P, "V", V).Replace(t)
 }
 
 var c15RouteCache = map[string]*ast.Route{}
@@ -78,12 +99,12 @@ func c15Route(name string, ver int) *ast.Route {
 var c15Inputs = []int64{0, 1, 2, 5}
 
 // c15Behaviour executes bytecode for the four inputs and renders the outcomes.
-func c15Behaviour(bc []byte) []string {
+func c15Behaviour(name string, bc []byte) []string {
 	out := make([]string, len(c15Inputs))
 	for i, q := range c15Inputs {
 		m := vm.NewVM()
 		m.SetMaxSteps(100000)
-		m.SetLocal("q", vm.IntValue{Val: q})
+		m.SetLocal(c15P(name), vm.IntValue{Val: q})
 		func() {
 			defer func() {
 				if p := recover(); p != nil {
@@ -112,19 +133,19 @@ func c15Ref(name string, ver int) []string {
 	if err != nil {
 		panic(err)
 	}
-	r := c15Behaviour(bc)
+	r := c15Behaviour(name, bc)
 	c15RefCache[key] = r
 	return r
 }
 
 var c15BehCache = map[[20]byte][]string{}
 
-func c15BehaviourCached(bc []byte) []string {
-	h := sha1.Sum(bc)
+func c15BehaviourCached(name string, bc []byte) []string {
+	h := sha1.Sum(append([]byte(name+"|"), bc...))
 	if b, ok := c15BehCache[h]; ok {
 		return b
 	}
-	b := c15Behaviour(bc)
+	b := c15Behaviour(name, bc)
 	c15BehCache[h] = b
 	return b
 }
@@ -148,7 +169,19 @@ func (e c15Event) String() string {
 	return e.Op + "(" + e.Name + ")"
 }
 
-var c15Types = []map[string]string{{"q": "int"}, {"q": "float", "x": "string"}}
+var c15TypeVecs = []map[string]string{{"P": "int"}, {"P": "float", "x": "string"}}
+
+// c15TypesFor: the type vector with the route's own parameter name.
+func c15TypesFor(name string, t int) map[string]string {
+	out := map[string]string{}
+	for k, v := range c15TypeVecs[t] {
+		if k == "P" {
+			k = c15P(name)
+		}
+		out[k] = v
+	}
+	return out
+}
 
 func c15Alphabet(thorough bool) []c15Event {
 	ev := []c15Event{
@@ -179,9 +212,32 @@ type c15Sys struct {
 	// and those among them that an invalidation or deoptimisation has retired
 	handed  map[string]map[*byte]bool
 	retired map[string]map[*byte]string
-	j       *JITCompiler
-	ver     map[string]int // definition handed to new calls
-	done    map[string]int // definitions whose invalidation has returned
+	// every slice handed out with a private copy of what it held then: code a request is executing must never change
+	issued []c15Issued
+	j      *JITCompiler
+	ver    map[string]int // definition handed to new calls
+	done   map[string]int // definitions whose invalidation has returned
+}
+
+type c15Issued struct {
+	what, name string
+	bc, snap   []byte
+}
+
+func (s *c15Sys) issue(what, name string, bc []byte) {
+	if len(bc) > 0 {
+		s.issued = append(s.issued, c15Issued{what, name, bc, append([]byte{}, bc...)})
+	}
+}
+
+// checkIssued: a slice that was handed out still holds the bytes it held when it was handed out.
+func (s *c15Sys) checkIssued(after string) string {
+	for _, is := range s.issued {
+		if string(is.bc) != string(is.snap) {
+			return fmt.Sprintf("handed-out-code-modified: %s for route %s was overwritten in place by a later %s (a request still executing it would run a mix of two programs)", is.what, is.name, after)
+		}
+	}
+	return ""
 }
 
 func newC15Sys() *c15Sys {
@@ -231,12 +287,13 @@ func (s *c15Sys) judge(what, name string, bc []byte) string {
 	if bc == nil {
 		return ""
 	}
+	s.issue(what, name, bc)
 	if !strings.Contains(what, "GetUnit") && !strings.Contains(what, "cached unit") {
 		if f := s.handOut("", what, name, bc); f != "" {
 			return f
 		}
 	}
-	got := c15BehaviourCached(bc)
+	got := c15BehaviourCached(name, bc)
 	want := c15Ref(name, s.ver[name])
 	for i := range want {
 		if got[i] != want[i] {
@@ -249,6 +306,13 @@ func (s *c15Sys) judge(what, name string, bc []byte) string {
 
 // apply performs one event; advance is done by the caller's clock function.
 func (s *c15Sys) apply(e c15Event, advance func(time.Duration)) string {
+	if f := s.apply1(e, advance); f != "" {
+		return f
+	}
+	return s.checkIssued(e.String())
+}
+
+func (s *c15Sys) apply1(e c15Event, advance func(time.Duration)) string {
 	j := s.j
 	route := func() *ast.Route { return c15Route(e.Name, s.ver[e.Name]) }
 	switch e.Op {
@@ -263,7 +327,7 @@ func (s *c15Sys) apply(e c15Event, advance func(time.Duration)) string {
 			j.RecordExecution(e.Name, time.Millisecond)
 		}
 	case "types":
-		bc, err := j.CompileRouteWithTypes(e.Name, route(), c15Types[e.T])
+		bc, err := j.CompileRouteWithTypes(e.Name, route(), c15TypesFor(e.Name, e.T))
 		if err != nil {
 			return "compile-error: CompileRouteWithTypes: " + err.Error()
 		}
@@ -540,6 +604,7 @@ func c15Concurrent(sc c15Scen, fail *string) func() {
 			})
 		}
 		vrt.Parallel(fs...)
+		setFail(s.checkIssued("concurrent operation"))
 		for _, e := range sc.Final {
 			setFail(s.apply(e, vrt.Advance))
 		}
@@ -557,7 +622,8 @@ func (s *c15Sys) applyConcurrent(e c15Event) string {
 		if bc == nil {
 			return ""
 		}
-		got := c15BehaviourCached(bc)
+		s.issue(what, e.Name, bc)
+		got := c15BehaviourCached(e.Name, bc)
 		for v := v0; v <= s.ver[e.Name]; v++ {
 			want := c15Ref(e.Name, v)
 			same := true
@@ -580,7 +646,7 @@ func (s *c15Sys) applyConcurrent(e c15Event) string {
 		}
 		return check("the bytecode returned by CompileRoute", bc)
 	case "types":
-		bc, err := j.CompileRouteWithTypes(e.Name, route, c15Types[e.T])
+		bc, err := j.CompileRouteWithTypes(e.Name, route, c15TypesFor(e.Name, e.T))
 		if err != nil {
 			return "compile-error: " + err.Error()
 		}
